@@ -14,6 +14,9 @@ def _worker(args):
         repo = os.environ.get('VERIF_REPO', '/repo')
         if repo not in sys.path:
             sys.path.insert(0, repo)
+        import geodepy
+        if not os.path.realpath(geodepy.__file__).startswith(os.path.realpath(repo) + os.sep):
+            return ('err', 'geodepy imported from %s, not from %s' % (geodepy.__file__, repo))
         mod = importlib.import_module(modname)
         return ('ok', mod.work(item))
     except BaseException:
